@@ -181,6 +181,46 @@ func c20Deep(n int, obj bool) any {
 	return json.RawMessage(strings.Repeat("[", n) + "1" + strings.Repeat("]", n))
 }
 
+// c20IsSchemaPath: the node at this path is a position that holds a Schema Object
+func c20IsSchemaPath(p []any) bool {
+	if len(p) == 0 {
+		return false
+	}
+	last := fmt.Sprint(p[len(p)-1])
+	prev := ""
+	if len(p) >= 2 {
+		prev = fmt.Sprint(p[len(p)-2])
+	}
+	switch {
+	case last == "schema" || last == "items" || last == "not":
+		return true
+	case prev == "schemas" || prev == "properties":
+		return true
+	case prev == "allOf" || prev == "anyOf" || prev == "oneOf":
+		return true
+	}
+	return false
+}
+
+func c20At(root any, p []any) any {
+	cur := root
+	for _, s := range p {
+		switch x := cur.(type) {
+		case map[string]any:
+			cur = x[fmt.Sprint(s)]
+		case []any:
+			i, ok := s.(int)
+			if !ok || i < 0 || i >= len(x) {
+				return nil
+			}
+			cur = x[i]
+		default:
+			return nil
+		}
+	}
+	return cur
+}
+
 const c20DupMarker = "\x00dup:"
 
 type c20Render struct {
@@ -211,6 +251,66 @@ func c20Apply(root any, m c20Mut, idx int, dir string, r *c20Render) any {
 		if s == "schemas" || s == "schema" {
 			underSchemas = true
 		}
+	}
+	if strings.HasPrefix(m.Op, "schema_") {
+		// keyword injections go to the (index mod count)-th schema object of the document
+		var ss []c20Node
+		for _, x := range nodes {
+			if c20IsSchemaPath(x.path) {
+				if _, ok := c20At(root, x.path).(map[string]any); ok {
+					ss = append(ss, x)
+				}
+			}
+		}
+		if len(ss) == 0 {
+			return root
+		}
+		n = ss[(m.Node-1)%len(ss)]
+		c20Applied[len(c20Applied)-1] = map[string]any{"op": m.Op, "path": c20PathString(n.path)}
+		old := c20At(root, n.path).(map[string]any)
+		o := map[string]any{}
+		for k, v := range old {
+			o[k] = v
+		}
+		switch m.Op {
+		case "schema_bad_pattern_example":
+			delete(o, "type")
+			o["pattern"], o["example"] = "(?!x)", "abc"
+		case "schema_type_empty_list":
+			o["type"] = []any{}
+		case "schema_type_list":
+			o["type"] = []any{"string", "integer"}
+		case "schema_multipleof_zero_default":
+			o["type"], o["multipleOf"], o["default"] = "number", json.Number("0"), json.Number("0")
+		case "schema_minmax_inverted_example":
+			o["type"], o["minimum"], o["maximum"], o["example"] = "integer", json.Number("5"), json.Number("1"), json.Number("3")
+		case "schema_enum_empty":
+			o["enum"] = []any{}
+		case "schema_default_wrong_type":
+			o["default"] = map[string]any{"a": []any{nil, json.Number("1")}}
+		case "schema_example_wrong_type":
+			o["example"] = []any{map[string]any{"a": nil}}
+		case "schema_discriminator_empty":
+			o["discriminator"] = map[string]any{}
+			o["oneOf"] = []any{map[string]any{"type": "object"}}
+		case "schema_format_unknown_example":
+			o["type"], o["format"], o["example"] = "string", "no-such-format", "x"
+		case "schema_properties_null_entry":
+			o["type"], o["properties"] = "object", map[string]any{"p": nil}
+		case "schema_items_list":
+			o["type"], o["items"] = "array", []any{map[string]any{"type": "string"}}
+		case "schema_additional_props_string":
+			o["additionalProperties"] = "yes"
+		case "schema_required_unknown_and_dup":
+			o["type"], o["required"] = "object", []any{"zz", "zz", ""}
+		case "schema_allof_empty":
+			o["allOf"], o["anyOf"], o["oneOf"] = []any{}, []any{}, []any{}
+		case "schema_oneof_null_member":
+			o["oneOf"] = []any{nil, map[string]any{"type": "string"}}
+		default:
+			panic("harness: c20 op " + m.Op)
+		}
+		return c20Set(root, n.path, o, false)
 	}
 	switch m.Op {
 	case "to_null":
